@@ -125,14 +125,13 @@ def _prove_task(task):
     t0 = time.time()
     try:
         rep = verify_contract(REGISTRY, Repo(root), c, options, only_alt=alt)
-        if rep.status == "ok":
-            discharge(rep.obligations, procs=1)
         obs = []
         for ob in rep.obligations:
             obs.append({
                 "label": ob.label, "kind": ob.kind, "line": ob.line, "trace": ob.trace[-6:], "meta": {k: (v if isinstance(v, (str, int, float, bool, type(None))) else str(v)) for k, v in (ob.meta or {}).items()},
-                "result": ob.result or {"status": "undecided", "backend": "-", "seconds": 0.0, "model": None, "reason": "not attempted"},
-                "smt2_bytes": len(ob.smt2()),
+                "result": {"status": "undecided", "backend": "-", "seconds": 0.0, "model": None, "reason": "not attempted"},
+                "smt2": ob.smt2(),
+                "smt2_focus": ob.smt2(focused=True) if ob.focus_hyps is not None else None,
             })
         return {
             "status": rep.status, "reason": rep.reason, "sha": rep.sha, "obligations": obs, "trivial": rep.trivial, "paths": rep.paths,
@@ -155,10 +154,19 @@ class LightOb:
         self.meta = d["meta"]
         self.result = d["result"]
         self.alt = alt
-        self._bytes = d["smt2_bytes"]
+        self._smt2 = d["smt2"]
+        self._focus = d["smt2_focus"]
+        self.focus_hyps = True if self._focus is not None else None
+        self.nbytes = len(self._smt2)
 
-    def smt2(self):
-        return " " * self._bytes
+    def smt2(self, focused=False):
+        if focused and self._focus is not None:
+            return self._focus
+        return self._smt2
+
+    def drop_text(self):
+        self._smt2 = " " * 0
+        self._focus = None
 
 
 class LightReport:
@@ -249,11 +257,17 @@ class PropertyRun:
         by_c = {}
         for (ci, k), r in zip(tasks, results):
             by_c.setdefault(ci, []).append((k, r))
+        new_reports = []
         for ci, c in enumerate(contracts):
             rep = LightReport(c)
             for k, r in sorted(by_c.get(ci, [])):
                 rep.absorb(k, r)
-            self.reports.append(rep)
+            new_reports.append(rep)
+        all_obs = [ob for rep in new_reports if rep.status == "ok" for ob in rep.obligations]
+        discharge(all_obs)
+        for ob in all_obs:
+            ob.drop_text()
+        self.reports.extend(new_reports)
         _np4.TRUSTED_USED.update(x for _, r in zip(tasks, results) for x in r.get("trusted", []))
         _spec.LEMMAS_USED.update(x for _, r in zip(tasks, results) for x in r.get("lemmas", []))
         return self.reports
@@ -449,7 +463,7 @@ class PropertyRun:
                 for b in self.bounded
             ],
             "samples": [
-                {"obligation": ob.label, "kind": ob.kind, "line": ob.line, "smt2_bytes": len(ob.smt2()), "backend": ob.result["backend"], "seconds": ob.result["seconds"]}
+                {"obligation": ob.label, "kind": ob.kind, "line": ob.line, "smt2_bytes": getattr(ob, "nbytes", None), "backend": ob.result["backend"], "seconds": ob.result["seconds"]}
                 for ob in obs[:3]
             ]
             + [s for b in self.bounded for s in b.samples[:2]],
